@@ -6,6 +6,7 @@ Tie:    stream `evalimpl`  real LiteralEvaluator.exec(node) on the members of ge
         (floats: the model computes a TERM over the abstract float operations; the harness interprets every term the model asks
          about with CPython's float operations — the `oracle` lines — so nothing is rounded on the Lean side)
         stream `unescape`  CPython's decoding of octal escapes in a literal body                       vs  `decodeOct`
+        stream `emitvalue` the text the real Py2Cpp.on_relay inlines for every Enum.Member.value read   vs  `emitValue`
 Search: on the real code alone: exec(e) == eval(e) with equal type, or an application error (Errors.*), on the same generator
         including the formerly defective regions (big-int division, triple-quoted / prefixed strings, str() of a string, casts
         with two arguments — repaired in /repo, a mismatch there is a regression) and escaped strings (known finding).
@@ -45,7 +46,8 @@ SPECIAL_FEATURES = {'triple', 'prefix', 'escape', 'strstr', 'arity2', 'bigdiv'}
 MALFORMED_REGIONS = {'badref', 'confuse', 'tilde', 'otherfn', 'arity', 'upperhex', 'fmt'}
 REGION_FEATURE = {'triple', 'prefix', 'escape', 'strstr', 'arity'}
 KEY_PRIORITY = ['escape']
-# a triple-quoted / prefixed string literal as the WHOLE enum value takes the Literal shortcut of py2cpp.py:847 (tokens[1:-1], no evaluator)
+# a triple-quoted / prefixed string literal as the WHOLE enum value used to take the Literal shortcut of py2cpp.py (tokens[1:-1], no
+# evaluator); repaired in 61fd1e4 (it is refused now): a mismatch there is a regression and keeps this key
 LONE_LITERAL_KEY = 'output-lone-nonplain-string-literal'
 
 
@@ -1292,7 +1294,7 @@ def search_output(ctx: Ctx, cases: list[Case]) -> SearchResult:
 				add(key, f'{m.key} = {m.text}: {bad}', {'source': source, 'member': m.key, 'text': m.text, 'emitted': text, 'eval': show_py(py[m.key]), 'features': sorted(m.feats), 'kind': 'output'})
 			elif len(res.samples) < 3 and len(m.text) > 10:
 				res.samples.append({'member': m.text, 'emitted': text, 'eval': show_py(py[m.key])})
-	known = set(EXCLUDED_KEYS.values()) | {LONE_LITERAL_KEY}
+	known = set(EXCLUDED_KEYS.values())
 	res.findings = [f for f in res.findings if f.key not in known] + [f for f in res.findings if f.key in known]
 	res.distinct = len(texts)
 	res.histogram = hist
@@ -1311,6 +1313,8 @@ STATEMENTS = {
 	'refuse': 'an error of execImpl is a refusal (OperationNotAllowed, UnresolvedSymbol, an error of type inference, the recursion limit) or CPython raises on e as well, as long as no 0X literal is evaluated',
 	'chain': 'evaluating the left-nested tree CPython builds for a flat chain = the left fold over the chain (operand, operation, left to right, first exception wins)',
 	'consistent_bindAll': "executing the Enum bodies top to bottom yields an environment consistent with the folder's member lookup when member keys are distinct (hypothesis Cons is satisfiable)",
+	'output_agree': "second observation point, no guard but one: whenever CPython evaluates the member value to v2 and the type answer of Reflections fits v2, the text Py2Cpp.on_relay inlines for Enum.Member.value (emitValue on top of execImpl: shortcut for Integer/Float tokens, str() of the folded value, parentheses for negatives, [1:-1] for str, relay/literalize.j2) read back denotes v2 with the same type",
+	'output_sound': 'and when on_relay fails instead it is a refusal (0X literals cut out)',
 	'upperhex_counterexample': 'guard H4 is necessary for sound/refuse: 0X1F is 31 in CPython, the folder raises a wrapped ValueError (an application error, allowed by the property)',
 	'escape_counterexample': "joining token texts does not commute with decoding escapes: the bodies \\1 and 2 join to \\12 = one newline character (known finding escape-merge-concat); tokens with a backslash are outside evalPy",
 }
